@@ -205,3 +205,19 @@ claim("C20",
       "itself, links among copied entities.",
       "must-precede / argument and key provenance on all abstract paths (path-sensitive abstract interpretation); raw "
       "h5py events under the keep_id decision; AST attribute-chain collection + existence probe", "DESIGN.md#c20")
+
+claim("C14",
+      "Static decision: the complete decision tables of check_entity, check_sampled_dimension, check_range_dimension, "
+      "check_data_array, check_tag and check_multi_tag are extracted from the source (every abstract path) and their "
+      "guards evaluated on ~650 enumerated scenarios (small objects covering the cases of the catalogue: present/"
+      "missing/zero/negative values, counts on both sides of every compared length, strictly/weakly/un-sorted ticks, SI "
+      "and non-SI units, 0..2 references of differing rank); on each scenario the set of catalogue messages in the "
+      "returned error list must equal the set the statement requires (count mismatches two-sided, ticks strictly "
+      "increasing, ...). check_file visits every container kind (source and section trees recursively) and files the "
+      "results of check_<kind>(v) under v with errors and warnings in their places; nothing appended or returned by a "
+      "helper is dropped on the way to the returned lists; every catalogued inconsistency has a message produced below "
+      "check_file; the unit-compatibility helper goes on to the next reference after a compatible one. NOT decided: "
+      "absence of errors on every well-formed file (depends on the unit grammar, C09), validator behaviour on objects "
+      "whose accessors raise.",
+      "decision-table extraction by path-sensitive abstract interpretation + evaluation of the extracted guards on "
+      "enumerated scenarios against a catalogue oracle; AST def-use for the traversal; returned-term membership", "DESIGN.md#c14")
